@@ -85,8 +85,8 @@ def schema_job(a):
         nonlocal ncomp
         ncomp += 1
         p = os.path.join(od, 'probe.c'); exe = os.path.join(od, 'probe')
-        open(p, 'w').write(U.probe_source(schema, [rb + '_reader.h'], prefix))
-        rc, out, err = U.run(GCC + ['-O0', '-I' + os.path.join(lib.REPO, 'include'), '-I' + od, p, '-o', exe], timeout=300)
+        open(p, 'w').write(U.probe_source(schema, [rb + '_reader.h', rb + '_builder.h'], prefix, exp['lay']))
+        rc, out, err = U.run(GCC + ['-O0', '-I' + os.path.join(lib.REPO, 'include'), '-I' + od, p] + list(exp.get('rt', [])) + ['-o', exe, '-lm'], timeout=300)
         if rc != 0:
             errs = '\n'.join(l for l in err.split('\n') if 'error' in l)[:600]
             probs.append(('compile:%s:%s' % (err_site(err), norm_err(err)), 'probe over generated reader (%s) does not compile: %s' % (shape, errs),
@@ -100,7 +100,7 @@ def schema_job(a):
         for k in sorted(want):
             if got.get(k) != want[k]:
                 kind = {'S': 'struct-size-align', 'F': 'struct-field-offset', 'E': 'enum-value', 'W': 'enum-width', 'I': 'field-id', 'IT': 'union-type-id',
-                        'D': 'default', 'O': 'optional', 'Z': 'scalar-size', 'V': 'vector-elem-size', 'VT': 'union-type-elem-size'}[k.split()[0]]
+                        'A': 'struct-constructor-argument', 'D': 'default', 'O': 'optional', 'Z': 'scalar-size', 'V': 'vector-elem-size', 'VT': 'union-type-elem-size'}[k.split()[0]]
                 probs.append(('layout:%s' % kind, '%s: compiled code says %s for `%s`, the rules say %s' % (kind, got.get(k), k, want[k]),
                               dict(replay, shape=shape, item=k, compiled=got.get(k), expected=want[k])))
                 break
@@ -506,6 +506,15 @@ def run(ctx):
         made.append(w)
     tb = G.Table('Tdep', []); tb.fields = [{'name': 'f%d' % j, 'type': ('struct', st), 'attrs': []} for j, st in enumerate(made[:40])] + \
         [{'name': 'v%d' % j, 'type': ('vec', ('struct', st)), 'attrs': []} for j, st in enumerate(made[40:60])]
+    # structs whose constructor takes a nested struct's members in the middle of its argument list (probe line A: argument placement)
+    P0 = G.Struct('P0', []); P0.fields = [{'name': 'x', 'type': ('scalar', 'ushort')}, {'name': 'y', 'type': ('scalar', 'ubyte')}]
+    P1 = G.Struct('P1', ['Dep']); P1.fields = [{'name': 'x', 'type': ('scalar', 'double')}, {'name': 'y', 'type': ('scalar', 'int')}, {'name': 'z', 'type': ('scalar', 'byte')}]
+    O0 = G.Struct('O0', []); O0.fields = [{'name': 'a', 'type': ('scalar', 'ubyte')}, {'name': 'p', 'type': ('struct', P0)}, {'name': 'b', 'type': ('scalar', 'uint')},
+                                          {'name': 'q', 'type': ('struct', P1)}, {'name': 'c', 'type': ('scalar', 'short')}]
+    O1 = G.Struct('O1', []); O1.fields = [{'name': 'p', 'type': ('struct', P1)}, {'name': 'a', 'type': ('scalar', 'long')}, {'name': 'b', 'type': ('scalar', 'byte')}]
+    O2 = G.Struct('O2', ['Dep']); O2.fields = [{'name': 'o', 'type': ('struct', O0)}, {'name': 'z', 'type': ('scalar', 'int')}, {'name': 'w', 'type': ('struct', P0)},
+                                               {'name': 'f', 'type': ('scalar', 'float')}]
+    made += [P0, P1, O0, O1, O2]
     fa16 = list(dict.fromkeys([x for x in made if x.force_align == 16][:6] + made[:4]))
     ud = G.Union('Udep', []); ud.members = [[x.name, ('struct', x), None, False] for x in fa16] + [['Tdep', ('table', tb), None, False], ['Sx', ('string',), None, True]]
     tb.fields += [{'name': 'n%d' % j, 'type': ('vec', ('scalar', 'ubyte')), 'nested': x, 'attrs': []} for j, x in enumerate(fa16)]
@@ -521,6 +530,7 @@ def run(ctx):
         ls, order, tables = s.model_lines(SMAX, AMAX, VT)
         meta.append((len(mlines), len(ls), order, tables)); mlines += ls
     mres = ctx.run_model('layout', mlines)
+    rt = ctx.rt_objs()       # the probe includes the generated builder (struct constructors): link the runtime library
     jobs = []
     feats = {}
     for i, (s, (st, n, order, tables)) in enumerate(zip(schemas, meta)):
@@ -546,7 +556,7 @@ def run(ctx):
             if ids[t] != pi:
                 ctx.violation('corr:ids', 'model ids %r differ from the independent rule %r for %s' % (ids[t], pi, t.name), {'schema_files': s.render()})
         for f in s.features: feats[f] = feats.get(f, 0) + 1
-        jobs.append((i, s, flatcc, ctx.bdir, ctx.thorough, {'lay': lay, 'ids': ids}))
+        jobs.append((i, s, flatcc, ctx.bdir, ctx.thorough, {'lay': lay, 'ids': ids, 'rt': rt}))
     ctx.log('generated %d schemas (%d structs, %d tables); running every output shape' % (nS, sum(len(m[2]) for m in meta), sum(len(m[3]) for m in meta)))
     results = U.pmap(schema_job, jobs)
     ncomp = 0
